@@ -197,10 +197,11 @@ def families(tier='quick', seed=0):
                   ([S('=2'), S('>=7'), S('<-1')], '=2,>=7,<-1'), ([S('=1.5'), S('<=0.5'), S('>2.5')], '=1.5,<=0.5,>2.5'),
                   ([('i', 1), ('i', 2)], '1,2'), ([('i', 1), S('a')], '1,a'), ([('b', True), S('a')], 'true,a'),
                   ([S('>1'), S('<5')], '>1,<5'), ([('null',), S('a')], 'null,a'), ([('f', 1.5), ('i', 2)], '1.5,2'),
+                  ([S('*'), S('>1')], '*,>1'), ([S('*'), ('i', 7)], '*,7'), ([S('>=1'), S('<=5')], '>=1,<=5'),
                   ([S('a')], 'a-only'), ([('i', 1)], '1-only')):
         add('list-mixed', nm, single('f', L(*l)))
     nested3 = [M((K('x'), S('a*'))), M((K('x'), S('*b'))), M((K('y'), ('i', 1)))]
-    for l, nm in (([S('a')], 'a-only'), ([S('*a*')], '*a*-only'), ([('i', 1)], '1-only'), ([S('>1'), S('<5')], '>1,<5'),
+    for l, nm in (([S('a')], 'a-only'), ([S('*a*')], '*a*-only'), ([('i', 1)], '1-only'), ([S('>1'), S('<5')], '>1,<5'), ([S('>=1'), S('<=5')], '>=1,<=5'),
                   ([('i', 1), ('i', 2)], '1,2'), ([('b', True), ('b', False)], 'true,false'), ([S('?a')], 're-only'),
                   # mapping members, two of them on the same inner field
                   (nested3, 'nested3'), ([M((K('x'), S('a*'))), M((K('x'), S('*b')))], 'nested2')):
@@ -254,6 +255,7 @@ def families(tier='quick', seed=0):
     add('dotted', 'n.m.f', {'idents': {'A': M((K('n.m.f'), S('a*')), (K('g'), ('i', 1)))}, 'cond': ('id', 'A')})
     add('dotted', 'n.f[0]', {'idents': {'A': M((K('n.f[0]'), S('a')))}, 'cond': ('id', 'A')})
     add('dotted', 'f[1].g', {'idents': {'A': M((K('f[1].g'), S('*a')))}, 'cond': ('id', 'A')})
+    add('dotted', 'f][0]', {'idents': {'A': M((K('f][0]'), S('a')))}, 'cond': ('id', 'A')})
     add('dotted', 'n.f or m.f', {'idents': {'A': M((K('n.f'), S('a'))), 'B': M((K('m.f'), L(S('b'), S('c*'))))}, 'cond': ('or', ('id', 'A'), ('id', 'B'))})
     # the same field with and without a cast: the uncast entry is missing on a number, the cast one matches
     add('sequence', 'f|str(f)', {'idents': {'A': ('seq', [M((K('f'), S('a'))), M((K('f', 'str'), ('i', 1)))])}, 'cond': ('id', 'A')})
@@ -282,6 +284,8 @@ def families(tier='quick', seed=0):
             ('not A or not B', ('or', ('not', ('id', 'A')), ('not', ('id', 'B'))), ab),
             ('not A or not B or C', ('or', ('or', ('not', ('id', 'A')), ('not', ('id', 'B'))), ('id', 'C')), abc),
             ('not (A or B) and C', ('and', ('not', ('or', ('id', 'A'), ('id', 'B'))), ('id', 'C')), abc),
+            ('(A and B) or (A and C)', ('or', ('and', ('id', 'A'), ('id', 'B')), ('and', ('id', 'A'), ('id', 'C'))), abc),
+            ('(A and B) or not A', ('or', ('and', ('id', 'A'), ('id', 'B')), ('not', ('id', 'A'))), ab),
             ('not A and not B and not C', ('and', ('and', ('not', ('id', 'A')), ('not', ('id', 'B'))), ('not', ('id', 'C'))), abc)):
         add('condition', nm, {'idents': ids, 'cond': cond})
     # negation over one multi-entry mapping, both written orders (conjunction order is observable under not)
@@ -297,7 +301,9 @@ def families(tier='quick', seed=0):
                      # an undefined identifier to the right of a cast operand
                      ('int(f)==1 and Q', ('and', ('cmp', '==', ('int', 'f'), ('ci', 1)), ('id', 'Q'))),
                      ('A and str(f)==str(g) or Q', ('or', ('and', ('id', 'A'), ('cmp', '==', ('str', 'f'), ('str', 'g'))), ('id', 'Q'))),
-                     ('flt(f)>=1.5 and all(Q)', ('and', ('cmp', '>=', ('flt', 'f'), ('cf', 1.5)), ('all', 'Q')))):
+                     ('flt(f)>=1.5 and all(Q)', ('and', ('cmp', '>=', ('flt', 'f'), ('cf', 1.5)), ('all', 'Q'))),
+                     # the modifier spelling of not, which the condition grammar does not have
+                     ('A and not(Q)', ('raw', 'A and not(Q)')), ('not(Q or A)', ('raw', 'not(Q or A)')), ('A and not(B)', ('raw', 'A and not(B)'))):
         add('undefined-ident', nm, {'idents': ab, 'cond': cond})
     seqX = ('seq', [M((K('f'), S('a'))), M((K('g'), S('b'))), M((K('h'), S('c')))])
     mapX = M((K('f'), S('a')), (K('g'), S('b')), (K('h'), S('c')))
@@ -390,6 +396,11 @@ def families(tier='quick', seed=0):
     add('modifier', 'multi-word keys', {'idents': {'A': M((K('Command Line'), S('a*')), (K('Event ID', 'str'), S('4*')))}, 'cond': ('id', 'A')})
     add('modifier', 'all(multi-word key)', {'idents': {'A': M((K('Command Line', 'all'), L(S('a*'), S('*b'))))}, 'cond': ('id', 'A')})
     add('modifier', 'int(multi-word key)', {'idents': {'A': M((K('Event ID', 'int'), ('i', 1)), (K('g'), S('a')))}, 'cond': ('id', 'A')})
+    # a case-sensitive list and its i-prefixed twin on one field
+    add('shake', 'list and its i-twin', {'idents': {'A': ('seq', [M((K('f'), L(S('ab*'), S('cd*')))), M((K('f'), L(S('iab*'), S('icd*')))), M((K('g'), S('x')))])}, 'cond': ('id', 'A')})
+    add('shake', 'i-twin and list', {'idents': {'A': ('seq', [M((K('f'), L(S('iab*'), S('icd*')))), M((K('f'), L(S('ab*'), S('cd*')))), M((K('g'), S('x')))])}, 'cond': ('id', 'A')})
+    add('modifier', 'str(f) float constant', {'idents': {'A': M((K('f', 'str'), ('f', 1.0)))}, 'cond': ('id', 'A')})
+    add('modifier', 'str(f) float list', {'idents': {'A': M((K('f', 'str'), L(('f', 1.0), ('f', 2.5))))}, 'cond': ('id', 'A')})
     add('shake', 'A or B same field', {'idents': {'A': M((K('f'), S('a*'))), 'B': M((K('f'), S('*b')))}, 'cond': ('or', ('id', 'A'), ('id', 'B'))})
     add('shake', 'A or B or C same field', {'idents': {'A': M((K('f'), S('a*'))), 'B': M((K('f'), S('*b'))), 'C': M((K('f'), S('ic')))},
                                             'cond': ('or', ('or', ('id', 'A'), ('id', 'B')), ('id', 'C'))})
@@ -447,6 +458,7 @@ MUST = {'single/"a\'', 'single/i\'a"', 'single/"',
         'quant-ident/of(list,2)', 'quant-ident/not of(map,1)', 'quant-ident/of(seq1block,1)', 'quant-ident/of(seq1block,2)', 'quant-ident/all(seq1block)', 'cast-cond/int(f)>1', 'cast-cond/str(f)==str(g)', 'cast-cond/not flt(f)>=1.5',
         'regex-rewrite/?.*a', 'regex-rewrite/list', 'regex-rewrite/i?.*A', 'modifier/str(f) list', 'modifier/not(f) list', 'list-mixed/1,a',
         'list-mixed/>1,<5', 'list/ab*,*c,id', 'list/abc*,*c,?q', 'list-all/ab*,*c,id', 'list-of/ab*,*c,id|2', 'quant-short/all:nested3', 'quant-short/of2:nested3', 'quant-short/of3:nested3', 'cast-cond/1<int(f)', 'cast-cond/1.5>=flt(f)', 'cast-cond/not 2<=int(f)',
+        'list-mixed/*,>1', 'list-mixed/>=1,<=5', 'quant-short/all:>=1,<=5', 'modifier/str(f) float constant',
         'regex/i?^\\D+$', 'regex/i?\\Sa', 'modifier/{not(f), not(g), h}',
         'modifier/multi-word keys', 'modifier/all(multi-word key)', 'modifier/int(multi-word key)'}
 
